@@ -318,33 +318,75 @@ func (x *runner) scenarioSpecificChecks(stage string) {
 	}
 	// --- checkpoint advance (single honest node serving the whole sync) ---------------
 	if stage == "end" && len(s.CheckpointHeights) > 0 && len(s.Nodes) == 1 && s.Nodes[0].Kind == "honest" && !s.DisableCheckpoints && s.InitialStore == "genesis" && !s.Nodes[0].losesFirstConnection() {
-		x.rig.Log.mu.Lock()
-		ghs := append([]GetHeadersSeen(nil), x.rig.Log.GetHdr...)
-		x.rig.Log.mu.Unlock()
-		var zero refmodel.Hash
-		idx := 0 // index of the next expected checkpoint
-		cpHash := func(i int) refmodel.Hash { return x.w.Honest[s.CheckpointHeights[i]-1].HashOf() }
-		for k, g := range ghs {
-			switch {
-			case idx < len(s.CheckpointHeights) && g.Stop == cpHash(idx):
-			case idx+1 < len(s.CheckpointHeights) && g.Stop == cpHash(idx+1):
-				idx++
-			case g.Stop == zero && idx >= len(s.CheckpointHeights)-1:
-				idx = len(s.CheckpointHeights)
-			case g.Stop != zero && idx >= len(s.CheckpointHeights):
-				// after the last checkpoint only announced-block stops (inv handling) may appear: must be on the honest chain
-				if _, ok := x.w.Height[g.Stop]; !ok {
-					x.fail("checkpoint-advance|unknown-stop|"+cls, fmt.Sprintf("getheaders #%d carries a stop hash that is neither a checkpoint nor a block of the tree", k))
+		// The stop hash of every request follows from what the node has delivered so far (the sync manager sends a request only
+		// in reaction to a message it has processed): the first checkpoint above the highest height delivered, and the zero
+		// hash (or an announced block) once the last checkpoint has been delivered - also when one message carried the
+		// headers of several checkpoints.
+		evs := x.nodeEvents(x.nodes[0].Name, 0)
+		delivered := int32(0)
+		lastCp := s.CheckpointHeights[len(s.CheckpointHeights)-1]
+		suffix := func(h refmodel.Hash) string { return h.String()[56:] }
+		known := map[string]bool{}
+		for _, h := range x.w.Honest {
+			known[suffix(h.HashOf())] = true
+		}
+		nReq, unbounded := 0, false
+		for _, e := range evs {
+			if e.Dir == "out" && e.Cmd == "headers" {
+				var n int
+				var a, b int32
+				if _, err := fmt.Sscanf(e.Info, "%d headers %d..%d", &n, &a, &b); err == nil && n > 0 && b > delivered {
+					delivered = b
+				} else if _, err := fmt.Sscanf(e.Info, "announce %d headers ..%d", &n, &b); err == nil && n > 0 && b > delivered {
+					delivered = b
 				}
+				continue
+			}
+			if e.Dir != "in" || e.Cmd != "getheaders" {
+				continue
+			}
+			i := strings.Index(e.Info, "stop=")
+			if i < 0 {
+				continue
+			}
+			stop := e.Info[i+5:]
+			nReq++
+			want, wantH := "00000000", int32(0)
+			for _, ch := range s.CheckpointHeights {
+				if ch > delivered {
+					want, wantH = suffix(x.w.Honest[ch-1].HashOf()), ch
+					break
+				}
+			}
+			switch {
+			case stop == want:
+				if want == "00000000" {
+					unbounded = true
+				}
+			case want == "00000000" && known[stop]:
+				// after the last checkpoint a request made for an announced block stops at that block
+			case want == "00000000":
+				x.fail("checkpoint-advance|unknown-stop|"+cls, fmt.Sprintf("getheaders #%d carries a stop hash (..%s) that is neither zero nor a block of the tree", nReq, stop))
 			default:
-				x.fail("checkpoint-advance|wrong-stop|"+cls, fmt.Sprintf("getheaders #%d: stop hash is not the next checkpoint (expected checkpoint index %d of %d, or zero after the last)", k, idx, len(s.CheckpointHeights)))
+				what := "another hash"
+				if stop == "00000000" {
+					what = "the zero hash"
+				}
+				for _, ch := range s.CheckpointHeights {
+					if stop == suffix(x.w.Honest[ch-1].HashOf()) {
+						what = fmt.Sprintf("the checkpoint at height %d", ch)
+					}
+				}
+				x.fail("checkpoint-advance|wrong-stop|"+cls, fmt.Sprintf("getheaders #%d: headers up to height %d have been delivered, the next checkpoint is at height %d, the request stops at %s", nReq, delivered, wantH, what))
 			}
 		}
-		if len(ghs) > 0 {
+		if nReq > 0 {
 			x.count("checkpoint_advance_sequences_checked", 1)
-			lastCp := int(s.CheckpointHeights[len(s.CheckpointHeights)-1])
-			if idx < len(s.CheckpointHeights) && s.HonestLen > lastCp {
-				x.fail("checkpoint-advance|no-unbounded-request|"+cls, "after the last checkpoint no request with a zero stop hash was sent")
+			if s.Nodes[0].IgnoreStop {
+				x.count("checkpoint_advance_sequences_with_answers_beyond_the_stop_hash", 1)
+			}
+			if !unbounded && s.HonestLen > int(lastCp) && int(delivered) < len(x.w.Honest) {
+				x.fail("checkpoint-advance|no-unbounded-request|"+cls, fmt.Sprintf("the node's chain has %d blocks, %d have been delivered, the last checkpoint is at height %d, and no request with a zero stop hash was sent", len(x.w.Honest), delivered, lastCp))
 			}
 		}
 	}
